@@ -138,3 +138,13 @@ Lemma Qc_mul_nonneg : forall x y : Qc, 0 <= x -> 0 <= y -> 0 <= x * y.
 Proof.
   intros x y Hx Hy. replace 0 with (0 * y) by ring. apply Qcmult_le_compat_r; assumption.
 Qed.
+
+(* an exact subspace solve (A-orthogonal projection of the error) does not increase the energy *)
+Lemma exact_correction_energy : forall n A b xs x d,
+  symmetric n A -> psd n A ->
+  (forall k, (k < n)%nat -> d k = 0 \/ (mv n A d k = b k - mv n A x k /\ mv n A xs k = b k)) ->
+  energy n A xs (fun k => x k + d k) <= energy n A xs x.
+Proof.
+  intros. rewrite (subspace_correction_energy n A b xs x d); auto.
+  apply Qc_sub_nonneg_le. apply H0.
+Qed.
